@@ -3,14 +3,14 @@
    PARTIAL: the quality of the real generator is trusted); the theorems show that what must be fresh is an injective
    function of a draw private to its call. *)
 From Coq Require Import List NArith Bool Arith Lia.
-From CC Require Import Dem DemProofs Conc.
+From CC Require Import Dem DemProofs Conc ConcProofs1 ConcProofs2.
 Import ListNotations.
 
 (* AEAD nonces: in any sequence of PKE encryptions and header generations the nonces read off the wire are pairwise
    distinct, even for identical keys and plaintexts *)
 Theorem C16_nonces_fresh : forall (D : Type) (kdf : D -> bytes -> D) (aead_enc : D -> bytes -> bytes -> bytes -> bytes)
   (XENC : Type) (fresh : nat -> bytes), FreshIdeal fresh ->
-  forall (cs : list (call D XENC)) (ctr : nat), NoDup (flat_map (out_nonces D XENC) (run D kdf aead_enc XENC fresh ctr cs)).
+  forall (cs : list (call D XENC)) (ctr : nat), NoDup (flat_map (out_nonces D XENC) (Dem.run D kdf aead_enc XENC fresh ctr cs)).
 Proof. exact run_nonces_nodup. Qed.
 Print Assumptions C16_nonces_fresh.
 
@@ -25,3 +25,17 @@ Print Assumptions C16_metadata_key_ne_secret.
 Theorem C16_draws_serialised : forall c i c', cstep c i c' -> cursor c' <> cursor c -> owner c = Some i.
 Proof. exact cursor_moves_only_by_owner. Qed.
 Print Assumptions C16_draws_serialised.
+
+(* across threads: the generator ranges consumed by any two draws of any threads are disjoint *)
+Theorem C16_draw_intervals_disjoint :
+  forall (k0 : N) (ps : list program) (sch : list nat) (c : conf) (a b : nat) (da db : nat * N * N),
+       pos_draws ps ->
+       exec (init k0 ps) sch c ->
+       a < b ->
+       nth_error (draw_trace (init k0 ps) sch) a = Some da ->
+       nth_error (draw_trace (init k0 ps) sch) b = Some db ->
+       (0 < d_len da)%N /\ (0 < d_len db)%N /\ (d_cur da + d_len da <= d_cur db)%N.
+Proof. exact (@draw_intervals_disjoint). Qed.
+Print Assumptions C16_draw_intervals_disjoint.
+
+
